@@ -73,6 +73,7 @@ type CallObs struct {
 	RecvRaw      []*Msg   // the uncopied originals handed to user code
 	Final        error    // terminal outcome of the call (nil: success and clean end)
 	FinalSet     bool
+	FinalText    string // Error() at the instant the outcome was returned
 	RespHeader   http.Header
 	RespTrailer  http.Header
 	RawHeader    http.Header // uncopied
@@ -673,6 +674,9 @@ func (w *World) rec(o *CallObs, rcv bool, r OpRec) {
 func (w *World) setFinal(o *CallObs, err error) {
 	if !o.FinalSet {
 		o.Final, o.FinalSet = err, true
+		if err != nil {
+			o.FinalText = err.Error()
+		}
 	}
 }
 
@@ -809,6 +813,11 @@ func (w *World) runCall(t *core.Task, o *CallObs) {
 		r = OpRec{Op: "closeresp", Start: stepsNow(w.S), StartT: time.Now()}
 		r.Err = stream.Close()
 		w.rec(o, false, r)
+		if p.CloseTwice {
+			r = OpRec{Op: "closeresp", Start: stepsNow(w.S), StartT: time.Now()}
+			r.Err = stream.Close()
+			w.rec(o, false, r)
+		}
 	case KBidi:
 		stream := client.CallBidiStream(ctx)
 		stream.RequestHeader().Set(callHeader, p.ID)
